@@ -121,6 +121,7 @@ GENERIC_EQUIV = [
     {"name": "single-use temporaries folded into the statement that reads them", "kind": "equiv", "transform": "inline"},
     {"name": "first call-valued argument of every statement-level call given a name (_xtN = g(x); h(_xtN))", "kind": "equiv", "transform": "extract"},
     {"name": "statements after an `if` whose body ends in return/raise/continue/break moved into its else", "kind": "equiv", "transform": "nestelse"},
+    {"name": "positional arguments of self.m(...) and of the package's own functions written as keyword arguments", "kind": "equiv", "transform": "kwargs"},
 ]
 
 
